@@ -335,11 +335,11 @@ func (Spec) MakeData(name enc.Name, config *ndn.DataConfig, content enc.Wire, si
 		}
 		wire[encoder.Data_encoder.SignatureValue_wireIdx] = sigVal
 		// Fix SignatureValue length
-		buf := wire[encoder.Data_encoder.SignatureValue_wireIdx-1]
-		buf[len(buf)-1] = byte(len(sigVal))
-		// TODO: This needs to be fixed for estSigLen >= 253 (urgent)
+		hdrIdx := encoder.Data_encoder.SignatureValue_wireIdx - 1
+		saved := 0
+		wire[hdrIdx], saved = fixSigValueLength(wire[hdrIdx], estSigLen, len(sigVal))
 		// Fix packet length
-		shrink := estSigLen - len(sigVal)
+		shrink := estSigLen - len(sigVal) + saved
 		wire[0] = enc.ShrinkLength(wire[0], shrink)
 		// }
 	}
@@ -459,6 +459,7 @@ func (Spec) MakeInterest(name enc.Name, config *ndn.InterestConfig, appParam enc
 		return nil, ndn.ErrFailedToEncode
 	}
 	sigVal := []byte(nil)
+	sigHdrSaved := 0
 	err := error(nil)
 	sigCovered := enc.Wire(nil)
 	if estSigLen > 0 {
@@ -478,8 +479,8 @@ func (Spec) MakeInterest(name enc.Name, config *ndn.InterestConfig, appParam enc
 		}
 		wire[ecdr.SignatureValue_wireIdx] = sigVal
 		// Fix SignatureValue length
-		buf := wire[ecdr.SignatureValue_wireIdx-1]
-		buf[len(buf)-1] = byte(len(sigVal))
+		hdrIdx := ecdr.SignatureValue_wireIdx - 1
+		wire[hdrIdx], sigHdrSaved = fixSigValueLength(wire[hdrIdx], estSigLen, len(sigVal))
 
 		// Don't fix packet length for now, as it may cause trouble
 	}
@@ -512,6 +513,9 @@ func (Spec) MakeInterest(name enc.Name, config *ndn.InterestConfig, appParam enc
 
 	// Fix packet length
 	shrink := estSigLen - len(sigVal)
+	if shrink >= 0 {
+		shrink += sigHdrSaved
+	}
 	if shrink > 0 {
 		wire[0] = enc.ShrinkLength(wire[0], shrink)
 	} else if shrink < 0 {
@@ -526,12 +530,33 @@ func (Spec) MakeInterest(name enc.Name, config *ndn.InterestConfig, appParam enc
 	}, nil
 }
 
+// fixSigValueLength rewrites the length field of the SignatureValue element whose header ends buf.
+// The header was reserved for a value of estLen bytes; the actual value has actualLen <= estLen bytes,
+// whose length may need fewer bytes to encode. Returns the (possibly shorter) buffer and the number of
+// header bytes saved.
+func fixSigValueLength(buf []byte, estLen int, actualLen int) ([]byte, int) {
+	oldSz := enc.TLNum(estLen).EncodingLength()
+	newSz := enc.TLNum(actualLen).EncodingLength()
+	enc.TLNum(actualLen).EncodeInto(buf[len(buf)-oldSz:])
+	saved := oldSz - newSz
+	return buf[:len(buf)-saved], saved
+}
+
 func checkInterest(val *Interest, context *InterestParsingContext) error {
 	if val.NameV == nil {
 		return ndn.ErrInvalidValue{Item: "Interest.Name", Value: nil}
 	}
 	if val.SignatureValue != nil && val.ApplicationParameters == nil {
 		return enc.ErrIncorrectDigest
+	}
+	if val.ApplicationParameters == nil {
+		// A parameters digest without parameters (e.g. the parameters element was
+		// lost or corrupted into an unrecognized type) cannot be verified
+		for _, c := range val.NameV {
+			if c.Typ == enc.TypeParametersSha256DigestComponent {
+				return enc.ErrIncorrectDigest
+			}
+		}
 	}
 	if val.ApplicationParameters != nil {
 		// Check digest
